@@ -382,6 +382,8 @@ enum Chunk {
     Cy(usize, bool),
     /// programs whose slot types refer to themselves or to each other (slice of 4)
     Recursive(usize),
+    /// one pipeline template with boundary constants in its two holes
+    Template(usize),
 }
 
 fn plan(tier: Tier) -> Vec<Chunk> {
@@ -399,6 +401,9 @@ fn plan(tier: Tier) -> Vec<Chunk> {
     }
     for i in 0..4 {
         v.push(Chunk::Recursive(i));
+    }
+    for t in 0..crate::templates::TEMPLATES {
+        v.push(Chunk::Template(t));
     }
     v
 }
@@ -466,6 +471,23 @@ impl Check for C03 {
                     }
                     true
                 });
+            }
+            Chunk::Template(t) => {
+                // loops over 256-bit constants inside the lifting passes (power-of-two tests, mask scans, span arithmetic)
+                // must stop for every constant: an unpolled loop that does not is attributed by the supervisor's stall detection
+                let b = crate::u256::boundary_set(tier.thorough());
+                let b2: Vec<_> = b.iter().copied().step_by(if tier.thorough() { 2 } else { 3 }).collect();
+                for c1 in &b {
+                    for c2 in &b2 {
+                        let code = crate::templates::template(t, *c1, *c2);
+                        ctx.case(|| json!({"bytes": hex(&code), "plan": []}));
+                        ctx.count("pipeline_runs", 1);
+                        ctx.count("template_programs", 1);
+                        if let Err(v) = check_halts(&code, &sle::vm::Config::default(), &Vec::new(), TC_BUDGET) {
+                            ctx.violation(v.key, format!("{} [{}]", v.what, hex(&code)), json!({"bytes": hex(&code), "plan": []}));
+                        }
+                    }
+                }
             }
             Chunk::Recursive(slice) => {
                 // rendering a slot type that contains itself must stop (a crash or a hang here is attributed by the supervisor)
@@ -551,7 +573,7 @@ impl Check for C03 {
              and 3 settings beyond. The VM is driven directly: finishes within an analytic step budget, per-state visit counts <= \
              iteration limit, per-target fork counts <= fork limit, states <= 1 + forks x jumpdests, cumulative minimum gas <= limit + \
              one instruction. (b) all stack-safe read-mask-write sequences <= {} over 10 tokens{}: analyze() must finish within {} \
-             polls under the canonical order and under every single deviation at the unification / storage-export order points; (c) 280 programs whose slot types refer to themselves or to each other: analyze() must finish (rendering a recursive type must stop). \
+             polls under the canonical order and under every single deviation at the unification / storage-export order points; (c) 280 programs whose slot types refer to themselves or to each other: analyze() must finish (rendering a recursive type must stop); (d) 16 pipeline templates (mask / shift / divide / multiply packing, hashing, exp / sar / signextend / byte) with boundary constants (0, 1, 2^k, 2^k+-1, 2^255+1, 2^256-1, ...) in their two holes: analyze() must finish. \
              non-trivial = (program, limits) where some limit actually fired, or a cyclic-family program; distinct by content",
             if tier.thorough() { 7 } else { 6 },
             if tier.thorough() { 5 } else { 4 },
